@@ -54,8 +54,8 @@ manifest = {
         "guard": "lsm_tree_verif",
         "enable": "none needed: the checks analyse /repo's working tree as built by `cargo +nightly check --lib` "
                   "(no instrumentation in the sources)",
-        "baseline_off_cmd": "cd /repo && (cargo nextest run --workspace --no-fail-fast --test-threads 8 --offline || "
-                            "cargo test --workspace --no-fail-fast --offline)",
+        "baseline_off_cmd": "cd /repo && (cargo nextest run --workspace --no-fail-fast --tool-config-file pb:/w/lib/nextest.toml "
+                            "--profile pb --test-threads 8 --offline || cargo test --workspace --no-fail-fast --offline)",
         "source_commits": [],
         "add_only": True,
     },
